@@ -33,6 +33,18 @@ from .base_worker import BaseWorker, BaseWorkerState
 from .base_workflow import BaseWorkflow
 from .base_workplace import BaseWorkplace
 
+# Verification hook (guard: environment variable PDESY_VERIF=1).
+# When the guard is off, _verif_observer stays None and nothing below is called.
+import os as _os
+
+_VERIF_ON = _os.environ.get("PDESY_VERIF") == "1"
+_verif_observer = None
+
+
+def _verif(project, phase):
+    if _VERIF_ON and _verif_observer is not None:
+        _verif_observer(project, phase)
+
 
 class SimulationMode(IntEnum):
     """SimulationMode."""
@@ -292,6 +304,7 @@ class BaseProject(object, metaclass=ABCMeta):
         self.absence_time_list = absence_time_list
 
         self.perform_auto_task_while_absence_time = perform_auto_task_while_absence_time
+        _verif(self, "enter")
 
         while True:
             # 0. Update status
@@ -322,16 +335,20 @@ class BaseProject(object, metaclass=ABCMeta):
                 self.organization.check_update_state_from_absence_time_list(self.time)
             else:
                 self.organization.set_absence_state_to_all_workers_facilities()
+            _verif(self, "absence")
 
             # 2. Allocate free workers to READY tasks
             if working:
                 self.__allocate(
                     task_priority_rule=task_priority_rule,
                 )
+            _verif(self, "allocated")
             
             # Update state of task newly allocated workers and facilities (READY -> WORKING)
             self.workflow.check_state(self.time, BaseTaskState.WORKING)
+            _verif(self, "working")
             self.product.check_state()  # product should be checked after checking workflow state
+            _verif(self, "comp3")
 
             # 3. Pay cost to all workers and facilities in this time
             if working:
@@ -341,6 +358,7 @@ class BaseProject(object, metaclass=ABCMeta):
                     add_zero_to_all_workers=True, add_zero_to_all_facilities=True
                 )
             self.cost_list.append(cost_this_time)
+            _verif(self, "costed")
 
             # 4, Perform
             if working:
@@ -348,12 +366,15 @@ class BaseProject(object, metaclass=ABCMeta):
                     self.__perform()
             elif perform_auto_task_while_absence_time:
                 self.workflow.perform(self.time, only_auto_task=True)
+            _verif(self, "performed")
 
             # 5. Record
             self.__record(working=working)
+            _verif(self, "recorded")
 
             # 6. Update time
             self.time = self.time + unit_time
+            _verif(self, "ticked")
 
     def backward_simulate(
         self,
@@ -499,11 +520,17 @@ class BaseProject(object, metaclass=ABCMeta):
 
     def __update(self):
         self.workflow.check_state(self.time, BaseTaskState.FINISHED)
+        _verif(self, "finished")
         self.product.check_state()  # product should be checked after checking workflow state
+        _verif(self, "comp1")
         self.product.check_removing_placed_workplace()
+        _verif(self, "removed")
         self.workflow.check_state(self.time, BaseTaskState.READY)
+        _verif(self, "ready")
         self.product.check_state()  # product should be checked after checking workflow state
+        _verif(self, "comp2")
         self.workflow.update_PERT_data(self.time)
+        _verif(self, "updated")
 
     def __is_allocated_worker(self, worker, task):
         team = list(
